@@ -202,7 +202,7 @@ def run_time_representations(ctx):
     S_, MS, US = 10 ** 9, 10 ** 6, 10 ** 3
     moments = [0, 1, -1, US, -US, -999999 * US, -1000001 * US, -S_, -S_ - 500 * MS, -86400 * S_ + 250 * MS, -86400 * S_ - 1 * US, 1500 * MS, -1500 * MS, 86399 * S_ + 999999 * US,
                -2208988800 * S_ + 123456 * US, -2208988800 * S_ - 123456 * US, 1700000000 * S_ + 987654 * US, 1700000000 * S_ + 987654321, -(2 ** 62), 2 ** 62, -(2 ** 63) + 1000 * S_, 2 ** 63 - 1 - 1000 * S_,
-               -6857222400 * S_ + 1 * US, 253402300799 * S_ // 100, -6857222400 * S_ - 999999 * US, -S_ + 1, -S_ - 1, 7 * US + 1]
+               -6857222400 * S_ + 1 * US, 253402300799 * S_ // 100, -6857222400 * S_ - 999999 * US, 9100000000 * S_ + 123457 * US, -9100000000 * S_ - 123457 * US, 9223372036 * S_ + 854775 * US, -9223372036 * S_ - 854775 * US, -S_ + 1, -S_ - 1, 7 * US + 1]
     times = [0, 1, US, 999999 * US, 86399 * S_ + 999999 * US, 86399 * S_ + 999999999, 12 * 3600 * S_, 3661 * S_ + 1001 * US, 43200 * S_ + 1]
     days = [0, 1, -1, -25567, 19000, -141427, 2932896, -719162]
     for k in range(3):
